@@ -55,6 +55,7 @@ Definition dual_cert_check (sizes : list Z) (width : Z) (demands : list Z) (y : 
   Nat.eqb (length y) (length sizes)
   && Nat.eqb (length demands) (length sizes)
   && valid_sizes sizes width
+  && Z.leb 0 width
   && forallb (Qleb 0) y
   && match knapsack_pricing 0 sizes width y with
      | Some (_, v) => Qleb v 1
@@ -73,3 +74,9 @@ Definition dual_cert_custom (cols : list pattern) (demands : list Z) (y : list Q
 (* valid input of the cutting-stock mode (the property's quantifier) *)
 Definition valid_input (sizes : list Z) (width : Z) (demands : list Z) : bool :=
   Nat.eqb (length sizes) (length demands) && valid_sizes sizes width && forallb (Z.leb 0) demands.
+
+(* what is still taken from the run when eps = 0 (see OptimalProofs.optimal_partial_eps0): the final master LP's dual
+   vector is non-negative and its value y.d is not below the LP objective *)
+Definition simplex_residue (demands : list Z) (r : cg_result) : bool :=
+  forallb (Qleb 0) (r_duals r)
+  && match r_lp r with Some lp => Qleb lp (dotq (r_duals r) demands) | None => false end.
